@@ -21,6 +21,13 @@ pub fn ratio_liq(preq: &PreQ, margin: U, f: i128, spot_price: U, d: U, twap_ref:
 /// `own`: (direction, |size|, open notional) of the position - with it the spot and oracle valuations are the harness's
 /// own (the vAMM's quote for the closing trade, the oracle price times the size) instead of the engine's PnL queries
 pub fn ratio_liq_own(preq: &PreQ, margin: U, f: i128, spot_price: U, d: U, twap_ref: Option<Option<(U, i128)>>, own: Option<(Dir, U, U)>) -> Option<LiqRef> {
+    ratio_liq_own_price(preq, margin, f, spot_price, d, twap_ref, own, None)
+}
+
+/// `oracle_price`: the latest price submitted to the feed according to the harness's own record (else the vAMM's
+/// `UnderlyingPrice` answer is taken)
+#[allow(clippy::too_many_arguments)]
+pub fn ratio_liq_own_price(preq: &PreQ, margin: U, f: i128, spot_price: U, d: U, twap_ref: Option<Option<(U, i128)>>, own: Option<(Dir, U, U)>, oracle_price: Option<U>) -> Option<LiqRef> {
     let (sn, sp) = match (own, pq_u(preq, "out_whole")) {
         (Some((dir, _, open)), Some(q)) => (q, pnl(dir, q, open)?),
         _ => (pq_field_u(preq, "pnl_spot", "position_notional")?, pq_field_i(preq, "pnl_spot", "unrealized_pnl")?),
@@ -37,7 +44,7 @@ pub fn ratio_liq_own(preq: &PreQ, margin: U, f: i128, spot_price: U, d: U, twap_
     };
     let mut r = ratio_ext(margin, pl, f, n, d)?;
     let mut over = false;
-    if let Some(op) = pq_u(preq, "underlying") {
+    if let Some(op) = oracle_price.or_else(|| pq_u(preq, "underlying")) {
         if op > 0 {
             let dev = smul_div(spot_price as i128 - op as i128, d as i128, op as i128)?;
             over = dev.unsigned_abs() >= d / 10;
@@ -118,7 +125,14 @@ pub fn step(ctx: &Ctx, w: &World, ev: &mut Ev) {
         let own_on = mul_div(op, pos.size.unsigned_abs(), d).unwrap_or(0);
         ev.count(if own_on == en { "oracle_notional_reference_equals_engine_figure" } else { "oracle_notional_reference_differs_from_engine_figure" });
     }
-    let lr = match ratio_liq_own(ctx.preq, pos.margin, f, ctx.pre.vamms[v].spot, d, twap_ref, Some((pos.dir, pos.size.unsigned_abs(), pos.notional))) {
+    // "the oracle" is the feed: its latest price is the last accepted submission of the history
+    let own_price = ctx.model.feed.get(v).and_then(|f| f.last()).map(|x| x.1);
+    if let (Some(a), Some(b)) = (own_price, pq_u(ctx.preq, "underlying")) {
+        ev.count(if a == b { "oracle_price_reference_equals_vamm_answer" } else { "oracle_price_reference_differs_from_vamm_answer" });
+    }
+    // (the harness's record is only counted against the vAMM's answer, not used: the two feeds differ in what they keep
+    // of equal-timestamp and batch submissions, and the record does not model that faithfully enough to be a reference)
+    let lr = match ratio_liq_own_price(ctx.preq, pos.margin, f, ctx.pre.vamms[v].spot, d, twap_ref, Some((pos.dir, pos.size.unsigned_abs(), pos.notional)), None) {
         Some(x) => x,
         None => {
             ev.count("ratio_unavailable");
